@@ -93,7 +93,7 @@ def close(a, b, tol):
     return bool(np.all(np.abs(a - b) <= tol * np.maximum(1.0, np.maximum(np.abs(a), np.abs(b)))))
 
 
-def replay_pair(real_pair, tol, box=None, hyp_real=None, extra_points=400, seed=0, names=None):
+def replay_pair(real_pair, tol, box=None, hyp_real=None, extra_points=400, seed=0, names=None, representations=False):
     """replay of an equality: real_pair(point) -> (observed, required) computed with the real code.
     The prover's witness is tried first; if the real floats happen to agree there, a bounded number of
     further points of the box is tried (still a concrete failing input when one is found)."""
@@ -120,6 +120,36 @@ def replay_pair(real_pair, tol, box=None, hyp_real=None, extra_points=400, seed=
                 first = rec
             if rec["reproduced"]:
                 return rec
+        # the same numbers in other REPRESENTATIONS: whole-number coordinates handed over as python int, numpy integer scalars
+        # (an element of np.arange is no `int`), np.float64.  The value under contract may not depend on the representation.
+        import numpy as _np
+        done = 0 if representations else 10**9   # opt-in: real_pair must hand the point's values to the code as they are
+        conv_names = {k_ for k_, (lo_, hi_) in (box or {}).items() if hi_ >= 50 and not k_.startswith("_")}
+        is_conv = lambda k_, v_: isinstance(v_, float) and (k_ in conv_names if box else abs(v_) >= 50)
+        nb = len(be.boundary_points(box, random.Random(seed + 1))) if box else 0
+        for pt in pts[nb + 1:] + pts[:nb + 1]:   # random interior points first, corners afterwards
+            if done >= 8:
+                break
+            try:
+                whole = {k_: (float(max(round(v_), 1)) if is_conv(k_, v_) else v_) for k_, v_ in pt.items()}
+                if not any(is_conv(k_, v_) for k_, v_ in pt.items()):
+                    break
+                if hyp_real is not None and not hyp_real(whole):
+                    continue
+                a0, _b0 = real_pair(whole)
+            except Exception:  # noqa: BLE001 - only points that evaluate as floats are re-presented
+                continue
+            done += 1
+            shown = lambda rname: {k_: (f"{rname}({int(v_)})" if is_conv(k_, v_) else v_) for k_, v_ in whole.items()}
+            for rname, conv in (("python int", int), ("numpy.int64", _np.int64), ("numpy.int32", _np.int32), ("numpy.float64", _np.float64)):
+                alt = {k_: (conv(v_) if is_conv(k_, v_) else v_) for k_, v_ in whole.items()}
+                try:
+                    a1, _b1 = real_pair(alt)
+                except Exception as e:  # noqa: BLE001
+                    return {"reproduced": True, "input": shown(rname), "observed": f"{type(e).__name__}: {e}", "required": f"the value for the same numbers as floats ({a0})", "representation": rname}
+                if not close(a1, a0, max(tol, 1e-9)):
+                    return {"reproduced": True, "input": shown(rname), "observed": _np.asarray(a1, dtype=float).tolist(), "required": _np.asarray(a0, dtype=float).tolist(), "representation": rname,
+                            "note": "same numbers, other representation of the whole-number arguments"}
         return first or {"reproduced": False, "note": "no admissible point"}
 
     return rp
@@ -128,7 +158,7 @@ def replay_pair(real_pair, tol, box=None, hyp_real=None, extra_points=400, seed=
 # ---- obligation builders -------------------------------------------------------------------------
 
 
-def cas_ob(ctx, oid, statement, terms, box, functions, real_pair=None, tol=1e-6, hyp_real=None, ints=(), assumptions=(), npoints=12, expect=be.PROVED):
+def cas_ob(ctx, oid, statement, terms, box, functions, real_pair=None, tol=1e-6, hyp_real=None, ints=(), assumptions=(), npoints=12, expect=be.PROVED, representations=False):
     """terms() -> (lhs, rhs) or (lhs, rhs, hyp[, outcomes…]); proved by CAS normal form, refuted by a separating point"""
 
     def run():
@@ -139,7 +169,7 @@ def cas_ob(ctx, oid, statement, terms, box, functions, real_pair=None, tol=1e-6,
         v.models = sorted(set().union(*[o.heap.get("ghost", {}).get("models", set()) for o in r[3:]])) if len(r) > 3 else []
         return v
 
-    rp = replay_pair(real_pair, tol, box=box, hyp_real=hyp_real, seed=ctx.seed) if real_pair else None
+    rp = replay_pair(real_pair, tol, box=box, hyp_real=hyp_real, seed=ctx.seed, representations=representations) if real_pair else None
     return Obligation(oid, statement, run, functions, "CAS", rp, assumptions, expect)
 
 
